@@ -42,10 +42,16 @@ type caseSpec struct {
 	Moment string  `json:"moment,omitempty"` // stop: name of the stop moment (shared with C03 part B)
 	Occ    int     `json:"occurrence"`
 	Label  string  `json:"occurrence_label"` // "1", "2", "3", "last"
+	// DelayUS > 0: the kill comes that many microseconds after the point, i.e. inside the library call that follows it
+	DelayUS int  `json:"delay_us,omitempty"`
+	Quick   bool `json:"quick_tier,omitempty"` // the second run does not wait for outlinks still in the producer's batch
 }
 
 func (c caseSpec) name() string {
 	if c.Kind == "kill" {
+		if c.DelayUS > 0 {
+			return fmt.Sprintf("[%s] SIGKILL %d us after hit %s (%d) of %s", c.Conf.name(), c.DelayUS, c.Label, c.Occ, c.Key)
+		}
 		return fmt.Sprintf("[%s] SIGKILL at hit %s (%d) of %s", c.Conf.name(), c.Label, c.Occ, c.Key)
 	}
 	return fmt.Sprintf("[%s] controler.Stop() at hit %d of moment: %s", c.Conf.name(), c.Occ, c.Moment)
@@ -112,22 +118,23 @@ type violation struct {
 }
 
 type verdict struct {
-	Case       string           `json:"case"`
-	Fired      bool             `json:"fired"` // the kill / stop happened at the enumerated point
-	Run1       string           `json:"run1"`  // how the first run ended
-	AtInstant  []rowState       `json:"rows_at_the_instant"`
-	Seen       []string         `json:"seen_at_the_instant,omitempty"`
-	AfterRun2  []rowState       `json:"rows_after_run2"`
-	Served1    []string         `json:"served_run1"`
-	Served2    []string         `json:"served_run2"`
-	Records1   int              `json:"complete_records_at_the_instant"`
-	TornTail   string           `json:"torn_tail,omitempty"`
-	Notes      []string         `json:"notes,omitempty"`
-	Violations []violation      `json:"violations,omitempty"`
-	Hang       bool             `json:"hang,omitempty"`
-	WallS      float64          `json:"wall_s"`
-	Hits       map[string]int64 `json:"hits,omitempty"` // profile runs only
-	FinalWARCs []string         `json:"-"`
+	Case        string           `json:"case"`
+	Fired       bool             `json:"fired"` // the kill / stop happened at the enumerated point
+	Run1        string           `json:"run1"`  // how the first run ended
+	AtInstant   []rowState       `json:"rows_at_the_instant"`
+	Seen        []string         `json:"seen_at_the_instant,omitempty"`
+	AfterRun2   []rowState       `json:"rows_after_run2"`
+	Served1     []string         `json:"served_run1"`
+	Served2     []string         `json:"served_run2"`
+	Records1    int              `json:"complete_records_at_the_instant"`
+	TornTail    string           `json:"torn_tail,omitempty"`
+	Notes       []string         `json:"notes,omitempty"`
+	Violations  []violation      `json:"violations,omitempty"`
+	Hang        bool             `json:"hang,omitempty"`
+	WallS       float64          `json:"wall_s"`
+	Hits        map[string]int64 `json:"hits,omitempty"` // profile runs only
+	HitsPreStop map[string]int64 `json:"hits_prestop,omitempty"`
+	FinalWARCs  []string         `json:"-"`
 }
 
 func pathOf(o *e2e.Origin, u string) string { return strings.TrimPrefix(u, "http://"+o.Addr()) }
@@ -208,7 +215,11 @@ func runHistory(cs caseSpec, profile bool, keepDir string) (v verdict) {
 	switch {
 	case profile:
 	case cs.Kind == "kill":
-		spec.Triggers = []e2e.Trigger{{Name: "end", Key: cs.Key, N: cs.Occ, Do: []string{"sigkill"}}}
+		do := "sigkill"
+		if cs.DelayUS > 0 {
+			do = fmt.Sprintf("sigkill-after:%d", cs.DelayUS)
+		}
+		spec.Triggers = []e2e.Trigger{{Name: "end", Key: cs.Key, N: cs.Occ, Do: []string{do}}}
 	case hold != nil:
 		hooks.Started = func(pid int, signal func(syscall.Signal)) {
 			go func() {
@@ -260,6 +271,7 @@ func runHistory(cs caseSpec, profile bool, keepDir string) (v verdict) {
 	}
 	if profile {
 		v.Hits = e2e.ReadHits(filepath.Join(dir, "hits.json"))
+		v.HitsPreStop = e2e.ReadHits(filepath.Join(dir, "hits-prestop.json"))
 	}
 	// ---- the instant: what a process opening the job would find
 	log1 := o.Log()
@@ -312,6 +324,9 @@ func runHistory(cs caseSpec, profile bool, keepDir string) (v verdict) {
 			os.WriteFile(filepath.Join(keepDir, cs.Conf.name()+"-"+e.Name()), b, 0o644)
 		}
 	}
+	if profile {
+		return v
+	}
 	// ---- second run on the same job directory
 	stale := 0
 	for _, r := range rows1 {
@@ -320,7 +335,7 @@ func runHistory(cs caseSpec, profile bool, keepDir string) (v verdict) {
 		}
 	}
 	hold.ReleaseIfSet()
-	spec2 := &e2e.ChildSpec{Dir: dir, Conf: c, Mode: "drain", Quiesce: true, StaleClaimed: stale, DeadlineS: 60, WatchdogS: 90}
+	spec2 := &e2e.ChildSpec{Dir: dir, Conf: c, Mode: "drain", Quiesce: true, IgnoreOutlinks: cs.Quick, StaleClaimed: stale, DeadlineS: 60, WatchdogS: 90}
 	r2, err := e2e.RunChild(spec2, e2e.RunHooks{})
 	if err != nil {
 		hkit.EngineError("child: %v", err)
@@ -333,7 +348,11 @@ func runHistory(cs caseSpec, profile bool, keepDir string) (v verdict) {
 		return v
 	}
 	if r2.Panic != "" || r2.ExitCode != 0 {
-		v.Violations = append(v.Violations, violation{"restart-fails:" + norm(r2.Panic), fmt.Sprintf("the second run on the same job directory ended with exit=%d signal=%s: %s ... %s", r2.ExitCode, r2.Signal, r2.Panic, tail(r2.Stderr, 1500))})
+		sig := "restart-fails:" + norm(r2.Panic)
+		if strings.Contains(r2.Stderr, "MANIFEST") || strings.Contains(e2e.LogTail(dir, c.Job, 4000), "unable to start seencheck") {
+			sig = "restart-fails:seencheck-store-does-not-open"
+		}
+		v.Violations = append(v.Violations, violation{sig, fmt.Sprintf("the second run on the same job directory ended with exit=%d signal=%s: %s ... %s", r2.ExitCode, r2.Signal, r2.Panic, tail(r2.Stderr, 1500))})
 		return v
 	}
 	if r2.HasEvent("work: drain-deadline") {
@@ -344,7 +363,7 @@ func runHistory(cs caseSpec, profile bool, keepDir string) (v verdict) {
 		hkit.EngineError("reading lq.db after the second run: %v", err)
 	}
 	v.AfterRun2 = rowStates(o, rows2)
-	judge(&v, o, log1, log2, rows1, rows2, seen1, files1)
+	judge(&v, cs.Quick, o, log1, log2, rows1, rows2, seen1, files1)
 	return v
 }
 
@@ -381,8 +400,14 @@ func interesting(key string) bool {
 	return false
 }
 
-func buildCases(tier string, profiles map[string]map[string]int64) []caseSpec {
+// libraryCall reports whether a point is a call into SQLite / LevelDB (a kill shortly after it lands inside the library).
+func libraryCall(key string) bool {
+	return strings.Contains(key, " call ") && (strings.Contains(key, "source/lq/client.go") || strings.Contains(key, "seencheck/seencheck.go"))
+}
+
+func buildCases(tier string, profiles, preStop map[string]map[string]int64) []caseSpec {
 	var out []caseSpec
+	quick := tier != "thorough"
 	// kill points
 	keySet := map[string]bool{}
 	for _, p := range profiles {
@@ -393,18 +418,34 @@ func buildCases(tier string, profiles map[string]map[string]int64) []caseSpec {
 		}
 	}
 	keys := hkit.SortedKeys(keySet)
-	for i, k := range keys {
+	i, stopPhase := 0, 0
+	for _, k := range keys {
+		if quick {
+			// a point that is only reached by the stop sequence of a drained run ends a finished crawl: one in eight of them
+			only := true
+			for _, d := range confs {
+				if preStop[d.name()][k] > 0 {
+					only = false
+				}
+			}
+			if only {
+				stopPhase++
+				if stopPhase%8 != 1 {
+					continue
+				}
+			}
+		}
 		for ci, d := range confs {
 			n := profiles[d.name()][k]
 			if n == 0 {
 				continue
 			}
-			if tier != "thorough" {
+			if quick {
 				// quick: the first occurrence of each point, configurations taken in rotation
 				if ci != i%len(confs) {
 					continue
 				}
-				out = append(out, caseSpec{Conf: d, Kind: "kill", Key: k, Occ: 1, Label: "1"})
+				out = append(out, caseSpec{Conf: d, Kind: "kill", Key: k, Occ: 1, Label: "1", Quick: true})
 				continue
 			}
 			for occ := int64(1); occ <= 3 && occ <= n; occ++ {
@@ -412,6 +453,21 @@ func buildCases(tier string, profiles map[string]map[string]int64) []caseSpec {
 			}
 			if n > 3 {
 				out = append(out, caseSpec{Conf: d, Kind: "kill", Key: k, Occ: int(n), Label: "last"})
+			}
+		}
+		i++
+	}
+	// kills inside the library calls of the queue and the seencheck store: a sweep of delays after the point
+	for _, d := range confs {
+		for _, k := range hkit.SortedKeys(profiles[d.name()]) {
+			if !libraryCall(k) {
+				continue
+			}
+			if quick && !(strings.Contains(k, "leveldb.NewStore") && d.Workers == 1) {
+				continue
+			}
+			for _, us := range []int{20, 100, 500, 2500} {
+				out = append(out, caseSpec{Conf: d, Kind: "kill", Key: k, Occ: 1, Label: "1", DelayUS: us, Quick: quick})
 			}
 		}
 	}
@@ -426,10 +482,10 @@ func buildCases(tier string, profiles map[string]map[string]int64) []caseSpec {
 			if m.Needs == "seencheck" && !d.Seencheck {
 				continue
 			}
-			if tier != "thorough" && ci != j%len(confs) {
+			if quick && ci != j%len(confs) {
 				continue
 			}
-			out = append(out, caseSpec{Conf: d, Kind: "stop", Moment: m.Name, Occ: 1, Label: "1"})
+			out = append(out, caseSpec{Conf: d, Kind: "stop", Moment: m.Name, Occ: 1, Label: "1", Quick: quick})
 			if tier == "thorough" && m.Match != nil {
 				out = append(out, caseSpec{Conf: d, Kind: "stop", Moment: m.Name, Occ: 2, Label: "2"})
 			}
@@ -452,6 +508,7 @@ func aggregate(hits map[string]int64) map[string]int64 {
 type caseFile struct {
 	Cases    []caseSpec                  `json:"cases"`
 	Profiles map[string]map[string]int64 `json:"profiles"`
+	PreStop  map[string]map[string]int64 `json:"profiles_before_the_stop"`
 }
 
 func main() {
@@ -484,7 +541,7 @@ func main() {
 		if err != nil {
 			hkit.EngineError("%v", err)
 		}
-		cf.Profiles = map[string]map[string]int64{}
+		cf.Profiles, cf.PreStop = map[string]map[string]int64{}, map[string]map[string]int64{}
 		type pr struct {
 			d confDim
 			v verdict
@@ -497,15 +554,16 @@ func main() {
 		}
 		for range confs {
 			p := <-ch
-			if len(p.v.Violations) > 0 || len(p.v.AfterRun2) > 0 || len(p.v.Hits) == 0 {
+			if len(p.v.Violations) > 0 || len(p.v.AtInstant) > 0 || len(p.v.Hits) == 0 {
 				hkit.EngineError("the undisturbed history of %s is not clean: %+v", p.d.name(), p.v)
 			}
 			cf.Profiles[p.d.name()] = aggregate(p.v.Hits)
+			cf.PreStop[p.d.name()] = aggregate(p.v.HitsPreStop)
 		}
 		// (d) every prefix of the final WARC files of the undisturbed runs
 		prefixEvals, prefixFiles, prefixViolation = prefixes(keep)
 		os.RemoveAll(keep)
-		cf.Cases = buildCases(a.Tier, cf.Profiles)
+		cf.Cases = buildCases(a.Tier, cf.Profiles, cf.PreStop)
 		if f, ok := a.Extra["only"]; ok {
 			var keepc []caseSpec
 			for _, c := range cf.Cases {
@@ -539,6 +597,7 @@ func main() {
 		kills, stops   int
 		hangsDismissed int
 		notes          = map[string]int{}
+		walls          []any
 	)
 	if prefixViolation != nil {
 		hkit.Report(propID, prefixViolation.Sig, map[string]any{"engine": "e2e", "harness": "c04", "prefix": prefixViolation}, prefixViolation.Detail)
@@ -578,6 +637,7 @@ func main() {
 		for _, n := range v.Notes {
 			notes[strings.SplitN(n, ":", 2)[0]]++
 		}
+		walls = append(walls, map[string]any{"history": v.Case, "wall_s": v.WallS, "fired": v.Fired})
 		if len(samples) < 3 && v.Fired && j%11 == 3 {
 			samples = append(samples, v)
 		}
@@ -598,7 +658,7 @@ func main() {
 		"rule":    "one evaluation = one history (first run ended by SIGKILL at the n-th hit of a point, or by controler.Stop() at a stop moment; second run drains the same job directory) or one prefix of a final WARC file; non-trivial = the kill/stop happened at the enumerated point; distinct = distinct (point or moment, queue contents at the instant)",
 		"samples": samples, "exhaustive": true, "histories": len(cs), "kill_histories": kills, "stop_histories": stops, "ended_at_the_enumerated_point": fired,
 		"point_not_reached_run_drained": vacuous, "warc_prefixes_read": prefixEvals, "warc_files_prefixed": prefixFiles, "violations_by_signature": sigCount,
-		"hangs_not_reproduced": hangsDismissed, "notes": notes, "profiled_points": profileSizes(cf.Profiles),
+		"hangs_not_reproduced": hangsDismissed, "notes": notes, "profiled_points": profileSizes(cf.Profiles), "per_history": walls,
 		"explanation": "history: lq.db pre-loaded with four FRESH rows (page + 2 assets; redirect -> page; 404; page with one outlink, max-hops 1); configurations workers {1,2} x seencheck {on,off}; oracle (a) lq.db is empty after the second run, (b) every row absent at the instant has complete records for every response served for it in the files on disk at that instant (.open included), (c) every row present at the instant is requested again in the second run, (d) every prefix of a final WARC file yields exactly the records wholly contained in it",
 	}, []string{
 		"kill points are Zeno's synchronisation points and external calls (instrumented), not every machine instruction, and not points inside the WARC library (its output is covered by the prefix enumeration); the process is killed, the page cache survives (no power loss)",
